@@ -52,11 +52,12 @@ def install(E):
             st = e.stats['asserts'].setdefault(label, dict(checked=0, failed=0, known=0)); st['checked'] += 1
             return None
         nc = True if c is False else z3.Not(c)
-        e.report(label, nc)
+        violated = e.report(label, nc)
         # continue under the assumption that the assertion holds (if that is still possible)
         if c is False: raise PathEnd()
-        ok, _ = e.check(c)
-        if not ok: raise PathEnd()
+        if violated:
+            ok, _ = e.check(c)
+            if not ok: raise PathEnd()
         e.assume(c)
         return None
     reg('Assert', vassert)
@@ -73,42 +74,59 @@ def install(E):
     reg('Implies', lambda e, a: e.bor(e.bnot(a[0]), a[1]))
     reg('Trace', lambda e, a: e.P.trace.append(a[0].c))
 
-    # ---- mathematical integers: 192-bit two's complement (cannot wrap inside the stated bounds:
-    # sums of < 2^60 terms that are 64-bit values or products of two 64-bit values)
-    ZW = 192
+    # ---- mathematical integers: two's complement bit-vectors whose width grows with every operation so that
+    # no operation can wrap (sum: max+1 bits, product: sum of widths); comparisons sign-extend to a common width
     Zt = RT + 'Z'
-    E.ext_zero[Zt] = lambda e: Opaque('Z', z3.BitVecVal(0, ZW))
+    E.ext_zero[Zt] = lambda e: Opaque('Z', z3.BitVecVal(0, 2))
     def zi(x): return x.val
-    def mk(t): return Opaque('Z', t)
+    def mk(t):
+        if t.size() > 1024: raise Unsupported('oracle integer wider than 1024 bits')
+        return Opaque('Z', t)
+    def ext(t, w): return t if t.size() == w else z3.SignExt(w - t.size(), t)
+    def common(a, b, extra=0):
+        w = max(a.size(), b.size()) + extra
+        return ext(a, w), ext(b, w)
     def zu(e, a):
         x = a[0]
-        return mk(z3.BitVecVal(x, ZW) if isinstance(x, int) else z3.ZeroExt(ZW - x.size(), x))
+        if isinstance(x, int): return mk(z3.BitVecVal(x, max(2, x.bit_length() + 1)))
+        return mk(z3.ZeroExt(1, x))
     reg('ZU', zu)
     def zint(e, a):
         x = a[0]
-        return mk(z3.BitVecVal(sgn(x, 64), ZW) if isinstance(x, int) else z3.SignExt(ZW - x.size(), x))
+        if isinstance(x, int):
+            v = sgn(x, 64); return mk(z3.BitVecVal(v, max(2, v.bit_length() + 1)))
+        return mk(x)
     reg('ZI', zint)
-    reg('ZAdd', lambda e, a: mk(zi(a[0]) + zi(a[1])))
-    reg('ZSub', lambda e, a: mk(zi(a[0]) - zi(a[1])))
-    reg('ZMul', lambda e, a: mk(zi(a[0]) * zi(a[1])))
+    def zadd(e, a): x, y = common(zi(a[0]), zi(a[1]), 1); return mk(z3.simplify(x + y))
+    def zsub(e, a): x, y = common(zi(a[0]), zi(a[1]), 1); return mk(z3.simplify(x - y))
+    def zmul(e, a):
+        x, y = zi(a[0]), zi(a[1]); w = x.size() + y.size()
+        return mk(z3.simplify(ext(x, w) * ext(y, w)))
+    reg('ZAdd', zadd); reg('ZSub', zsub); reg('ZMul', zmul)
     zcnt = [0]
     def zdiv(e, a, ceil):
         d = cint(e, a[1]); x = zi(a[0])
+        if d <= 0: raise Unsupported('ZDiv by non-positive constant')
         zcnt[0] += 1
-        q = z3.BitVec('zq%d' % zcnt[0], ZW)
+        q = z3.BitVec('zq%d' % zcnt[0], x.size())
+        w = x.size() + d.bit_length() + 1
+        Q, X = ext(q, w), ext(x, w)
         # definitional constraints of floor / ceiling division by a positive constant (no bvsdiv)
-        lim = z3.BitVecVal(1 << 180, ZW)
-        e.P.solver.add(q < lim, q > -lim)
-        if ceil: e.P.solver.add(q * d >= x, (q - 1) * d < x)
-        else: e.P.solver.add(q * d <= x, (q + 1) * d > x)
+        if ceil: e.P.solver.add(Q * d >= X, (Q - 1) * d < X)
+        else: e.P.solver.add(Q * d <= X, (Q + 1) * d > X)
         return mk(q)
     reg('ZCeilDiv', lambda e, a: zdiv(e, a, True))
     reg('ZDiv', lambda e, a: zdiv(e, a, False))
-    reg('ZLe', lambda e, a: zi(a[0]) <= zi(a[1]))
-    reg('ZLt', lambda e, a: zi(a[0]) < zi(a[1]))
-    reg('ZEq', lambda e, a: zi(a[0]) == zi(a[1]))
-    reg('ZIte', lambda e, a: mk(z3.If(e.tobool(a[0]), zi(a[1]), zi(a[2]))))
-    E.opaque_eq['Z'] = lambda e, x, y: x.val == y.val
+    def zcmp(op):
+        def f(e, a):
+            x, y = common(zi(a[0]), zi(a[1]))
+            return op(x, y)
+        return f
+    reg('ZLe', zcmp(lambda x, y: x <= y)); reg('ZLt', zcmp(lambda x, y: x < y)); reg('ZEq', zcmp(lambda x, y: x == y))
+    def zite(e, a):
+        x, y = common(zi(a[1]), zi(a[2])); return mk(z3.If(e.tobool(a[0]), x, y))
+    reg('ZIte', zite)
+    E.opaque_eq['Z'] = lambda e, x, y: (lambda p: p[0] == p[1])(common(x.val, y.val))
     def pick(e, a, conv, wrap):
         idx = a[0]; opts = slist(a[1])
         c = e.conc(idx)
